@@ -11,7 +11,7 @@
 (* TLC with the limits given literally in the trace's reset event (they    *)
 (* come from the generator, not from the code under test).                 *)
 (***************************************************************************)
-EXTENDS FiniteSets, HcobsFormat, TLC, Json, IOUtils
+EXTENDS FiniteSets, HcobsCodec, TLC, Json, IOUtils
 
 CONSTANTS RADIX,        \* 253, literally
           MaxArenaChunk \* 1048576: the lag bound of C09 is one arena chunk + one chunk + header
@@ -19,10 +19,11 @@ CONSTANTS RADIX,        \* 253, literally
 Rec == ndJsonDeserialize(IOEnv.TRACE)
 
 VARIABLES l, failed, viol,
+          drift,   \* I-level disagreements (transcribed state machines of HcobsCodec.tla vs the observed counts)
           st,      \* per-run model state (record, see NewRun)
           outs     \* [iid, input, out]: first encoder output of the current group of runs with the same
                    \* input id (the generator makes runs with equal iid > 0 adjacent) (C02)
-vars == <<l, failed, viol, st, outs>>
+vars == <<l, failed, viol, drift, st, outs>>
 
 NewRun(e) == [kind |-> e.kind, ph |-> IF e.kind = "dec" THEN "dec" ELSE "enc",
               L1 |-> e.l1, L2 |-> e.l2, iid |-> e.iid,
@@ -33,15 +34,17 @@ NewRun(e) == [kind |-> e.kind, ph |-> IF e.kind = "dec" THEN "dec" ELSE "enc",
               vis |-> << >>,              \* longest prefix of the output observed so far
               D |-> 0,                    \* bytes drained so far
               total |-> 0, stable |-> 0,  \* last observation
+              \* I-spec shadow (short inputs only): the transcribed encoder / decoder state machines run on the same pieces
+              ist |-> [on |-> Len(e.input) <= 1000, enc |-> EncNew(e.l1), dec |-> DecNew],
               live0 |-> e.live, chunks0 |-> e.chunks]
 
 \* keep the violation set small (per property): a broken build can fail tens of thousands of runs
 CapViol(v, new) == v \cup {x \in new : Cardinality({y \in v : y.prop = x.prop}) < 25}
 
-Init == l = 1 /\ failed = FALSE /\ viol = {} /\ outs = [iid |-> 0, input |-> << >>, out |-> << >>] /\
+Init == l = 1 /\ failed = FALSE /\ viol = {} /\ drift = {} /\ outs = [iid |-> 0, input |-> << >>, out |-> << >>] /\
         st = [kind |-> "none", ph |-> "none", L1 |-> 1, L2 |-> 1, iid |-> 0, pre |-> << >>, input |-> << >>,
               plain |-> << >>, pos |-> 0, vis |-> << >>, D |-> 0, total |-> 0, stable |-> 0,
-              live0 |-> 0, chunks0 |-> 0]
+              ist |-> [on |-> FALSE, enc |-> EncNew(1), dec |-> DecNew], live0 |-> 0, chunks0 |-> 0]
 
 V(prop, what) == {<<prop, what>>}
 When(c, S) == IF c THEN S ELSE {}
@@ -68,6 +71,27 @@ VisAfter(s, e, Dnew) ==
   IF e.full = 1 /\ Dnew + Len(e.sb) > Len(s.vis)
   THEN SubSeq(s.vis, 1, Dnew) \o e.sb ELSE s.vis
 
+\* the I-spec shadow consumes the piece the codec was given
+IFeed(s, e) ==
+  IF ~s.ist.on \/ e.panic # "" \/ e.n = 0 THEN s.ist
+  ELSE LET piece == SubSeq(s.input, s.pos + 1, s.pos + e.n) IN
+       IF s.ph = "enc" THEN [s.ist EXCEPT !.enc = EncFeed(@, piece, s.L2, RADIX)]
+       ELSE [s.ist EXCEPT !.dec = DecFeed(@, piece, s.L1, s.L2, RADIX)]
+
+\* ... and must agree with the real one on how much was appended and how much of it is consumable
+\* (s0 / s1: model state before / after the feed event e)
+FeedDrift(s0, s1, e) ==
+  IF e.ev # "feed" \/ ~s1.ist.on \/ e.panic # "" THEN {}
+  ELSE LET app == e.total + s0.D - Len(s0.pre)
+           stb == e.stable + s0.D - Len(s0.pre)
+       IN IF s0.ph = "enc"
+          \* (the consumable prefix ends at a slice boundary of the iovec: at most what precedes the pending header)
+          THEN When(e.err = "" /\ (s1.ist.enc.bad \/ Len(s1.ist.enc.out) # app \/ Len(EncStable(s1.ist.enc)) < stb),
+                    {"encoder: appended byte count differs from / consumable bytes exceed the transcribed state machine"})
+          ELSE When((e.err # "") # s1.ist.dec.err, {"decoder: rejects / accepts a piece unlike the transcribed state machine"})
+          \cup When(e.err = "" /\ ~s1.ist.dec.err /\ (Len(s1.ist.dec.out) # app \/ stb # app),
+                    {"decoder: decoded byte count after a piece differs from the transcribed state machine"})
+
 Feed(s, e) ==
   LET bad ==
            When(e.panic # "", V(IF s.ph = "enc" THEN "C01" ELSE "C07", "panic while feeding: " \o e.panic))
@@ -76,7 +100,7 @@ Feed(s, e) ==
                  \cup When(e.stable < s.stable, V("C09", "consumable bytes shrank without a drain"))
             ELSE {})
   IN [st |-> [s EXCEPT !.pos = @ + e.n, !.vis = IF e.panic = "" THEN VisAfter(s, e, s.D) ELSE @,
-                       !.total = e.total, !.stable = e.stable],
+                       !.total = e.total, !.stable = e.stable, !.ist = IFeed(s, e)],
       bad |-> bad]
 
 Drain(s, e) ==
@@ -173,7 +197,7 @@ Step(s, e) ==
     [] e.ev = "take_iovec" -> [st |-> s, bad |-> TakeCheck(s, e)]
     [] e.ev = "switch" ->
          [st |-> [s EXCEPT !.ph = "dec", !.input = e.dinput, !.pos = 0, !.vis = << >>, !.D = 0,
-                           !.total = 0, !.stable = 0],
+                           !.total = 0, !.stable = 0, !.ist = [on |-> Len(e.dinput) <= 1100, enc |-> EncNew(1), dec |-> DecNew]],
           bad |-> {}]
     [] e.ev = "end" ->
          [st |-> s,
@@ -185,13 +209,15 @@ Next ==
   /\ l' = l + 1
   /\ LET e == Rec[l] IN
      IF e.ev = "reset_after_crash" THEN      \* the process died in this run (reported by the orchestrator)
-        /\ failed' = TRUE /\ UNCHANGED <<st, viol, outs>>
+        /\ failed' = TRUE /\ UNCHANGED <<st, viol, outs, drift>>
      ELSE IF e.ev = "reset" THEN
-        /\ st' = NewRun(e) /\ failed' = FALSE /\ UNCHANGED <<viol, outs>>
-     ELSE IF failed /\ e.ev # "end" THEN UNCHANGED <<st, failed, viol, outs>>
+        /\ st' = NewRun(e) /\ failed' = FALSE /\ UNCHANGED <<viol, outs, drift>>
+     ELSE IF failed /\ e.ev # "end" THEN UNCHANGED <<st, failed, viol, outs, drift>>
      ELSE LET r == Step(st, e) IN
           /\ st' = r.st
           /\ failed' = (failed \/ r.bad # {})
+          /\ drift' = (IF Cardinality(drift) >= 20 \/ r.bad # {} THEN drift
+                       ELSE drift \cup {[run |-> e.run, line |-> l, what |-> w] : w \in FeedDrift(st, r.st, e)})
           /\ viol' = CapViol(viol, {[run |-> e.run, line |-> l, prop |-> w[1], what |-> w[2]] : w \in r.bad})
           /\ outs' = IF e.ev = "finish" /\ st.ph = "enc" /\ e.panic = "" /\ st.iid > 0 /\ outs.iid # st.iid
                      THEN [iid |-> st.iid, input |-> st.input, out |-> Body(st, e)]
@@ -201,6 +227,6 @@ Spec == Init /\ [][Next]_vars
 
 Done == (l = Len(Rec) + 1) =>
           /\ PrintT(<<"TV-VIOL", ToJson(viol)>>)
-          /\ PrintT(<<"TV-DRIFT", ToJson({})>>)
+          /\ PrintT(<<"TV-DRIFT", ToJson(drift)>>)
           /\ PrintT(<<"TV-DONE", Len(Rec)>>)
 =============================================================================
